@@ -114,6 +114,17 @@ pub fn run(tier: Tier) -> Report {
 			Ok(d) => {
 				let mut same = 0;
 				for (ty, dg) in d {
+					if ty.starts_with("from_bytes-panic:") || ty.starts_with("from_bytes-mismatch:") {
+						// with the `bytes` integration enabled, its zero-copy path must decide like the plain one
+						acc.violate(Violation {
+							property: "C20".into(),
+							sub: "C20.cfg".into(),
+							key: format!("C20|bytes-integration|{}", ty.split(':').next().unwrap_or("")),
+							detail: format!("configuration {}: {} on an input of {} bytes (the shared-buffer path decides differently from the slice path)", c.name(), ty, u64::from_str_radix(dg, 16).unwrap_or(0)),
+							case: json!({"sub": "C20.cfg", "base": c.base, "features": c.features, "type": ty}),
+						});
+						continue;
+					}
 					acc.transitions += 1;
 					match reference.get(ty) {
 						Some(r) if r == dg => {
@@ -157,6 +168,9 @@ pub fn replay(case: &Json) -> Option<String> {
 		Err(e) => Some(e),
 		Ok(d) => {
 			for (ty, dg) in &d {
+				if ty.starts_with("from_bytes-panic:") || ty.starts_with("from_bytes-mismatch:") {
+					return Some(format!("{} ({} input bytes)", ty, dg));
+				}
 				if let Some(r) = reference.get(ty) {
 					if r != dg {
 						return Some(format!("type {}: digest differs from the default configuration", ty));
